@@ -182,7 +182,7 @@ Section Pos.
       apply Forall_app; split; [apply lex_events_at; lia|]. constructor; [|constructor]. ev_ok.
   Qed.
 
-  Lemma plain_at s1 ev : pos_fin s1 -> Forall (plain_ev V C buf s1) ev -> Forall (event_at buf (ps_it s1)) ev.
+  Lemma plain_at s1 ev : pos_fin s1 -> Forall (plain_ev s1) ev -> Forall (event_at buf (ps_it s1)) ev.
   Proof.
     intros (Hsp & Hit & Hen) H. eapply Forall_impl; [|exact H]. cbn beta.
     intros e [->|[[nst ->]|[->|[->|[nst ->]]]]]; ev_ok; try exact I. lia.
@@ -238,7 +238,7 @@ Section Pos.
     - intros s1 ev1 Hg. apply (gct_pos _ _ _ _ Hinv) in Hg as (Hfin & Hoff & Hev & _).
       rewrite <- Hoff. split; assumption.
     - intros cursor cs s1 t ev1 r ev2 Hcs Hg Ha.
-      pose proof (gct_term _ _ _ _ _ _ _ _ _ _ Hg) as Hterm.
+      pose proof (gct_term Hg) as Hterm.
       apply (gct_pos _ _ _ _ Hinv) in Hg as (Hfin & Hoff & Hev & Hgap).
       assert (Hgap' : gap_ok s1) by (apply Hgap; discriminate).
       destruct (act_pos _ _ _ _ _ Hfin Hgap' Hterm Ha) as [Hev2 Hr]. rewrite <- Hoff.
@@ -327,7 +327,7 @@ Section PosTree.
     - intros cursor cs s1 t ev1 r ev2 _ Hg Ha. cbn [fst].
       pose proof (gct_pos _ _ g tbl opts buf lexer lexer_len no_eof_shift _ _ _ _ Hinv Hg) as ((Hsp & Hit & Hen) & _ & _ & Hgap).
       specialize (Hgap ltac:(discriminate)).
-      pose proof (gct_term _ _ _ _ _ _ _ _ _ _ Hg) as Hterm.
+      pose proof (gct_term Hg) as Hterm.
       apply gct_stacks in Hg as (_ & Hv1 & Hc1 & _). rewrite <- Hv1 in Hv. rewrite <- Hc1 in Hc. clear Hv1 Hc1.
       inversion Ha as [r0 s' ev0 Hs' Hr Hev|Hcn Hne|Hcn Hr|top cs' Hcn Hr Htl|Hcn Hr Htl|e nst Hcell Hk Hend|nst|r0 s3 pre ev0 Hred Hpre];
         subst; unfold stack_ok.
